@@ -16,7 +16,8 @@ Definition c18_mentions (m : mapping) (t : rty) : bool := mentions m t.
 Definition c18_declared (zod : bool) (m : mapping) (all : list (str * list rty)) (sites : list rty) : list str :=
   declared_ts zod m (mk_all all) (structs_of sites).
 Definition c18_decl_oracle (m : mapping) (names : list str) : bool := c18_decl_ok m names.
+Definition c18_decl_frame (with_table without_table : list str) : bool := c18_decl_frame_ok with_table without_table.
 Definition c18_decl_class (m : mapping) (all : list (str * list rty)) : bool := kf18_own_name_mapped m (mk_all all).
 
 Extraction Language OCaml.
-Extraction "tt_c18.ml" c18_tts c18_emit c18_oracle c18_abs c18_dom c18_mentions c18_declared c18_decl_oracle c18_decl_class.
+Extraction "tt_c18.ml" c18_tts c18_emit c18_oracle c18_abs c18_dom c18_mentions c18_declared c18_decl_oracle c18_decl_frame c18_decl_class.
